@@ -15,10 +15,15 @@ PROPS["C15"] = dict(
          "sink_kind_and_fill_level_writes_checked); Unmarshal returns (size, value, nil) from a source "
          "with cap == len and from one with spare capacity; newBuf=true: the result's backing array res[:cap(res)] (any "
          "length, 0 included; strings: the non-empty data) does not overlap the source's memory, appending to the decoded "
-         "byte string leaves the source unchanged, and the value survives flipping the source; newBuf=false: a non-empty "
+         "byte string leaves the source unchanged, and the value survives flipping the source; a []byte returned with "
+         "newBuf=true is then OVERWRITTEN IN PLACE by the harness as its owner may (every byte of res[:cap(res)] flipped) and a "
+         "fresh copy of the same encoding is decoded again with newBuf=true and newBuf=false: same (size, value, nil) "
+         "(signature newbuf-result-not-owned, counted in newBuf_results_overwritten_in_place; all later cases of the test process, strings included, decode "
+         "after these overwrites); newBuf=false: a non-empty "
          "result starts at source[prefix]; the whole list written back to back (Marshal - alternately into the rest of the "
          "buffer and into a window of exactly the needed length - and one ObjectsWriter agree) is decoded item by item, "
-         "consumes everything, and decodes again after every newBuf=true value was appended to. Enumerated: all 256 bytes, all "
+         "consumes everything, decodes again after every newBuf=true value was appended to, and once more (all items with "
+         "newBuf=true) after every []byte that was returned with newBuf=true was overwritten in place. Enumerated: all 256 bytes, all "
          "65536 uint16, for uint32/uint64/varint every bit length 0..64 (min, max, one mixed value) and every 2^(7k), 2^(8k) "
          "-2..+2, all byte strings/strings of length 0..3 over {00,'a',ff}, every length 0..260, 2^14-4..2^14+4, 2^21-1, 2^21 "
          "(thorough 2^21-3..2^21+2), all lists of length 2 (thorough 3) over 26 representative items; rapid: the same value "
@@ -46,12 +51,25 @@ PROPS["C15"] = dict(
          "exactly the concatenation of the Marshal encodings of the items directed to it (frame bodies for the framing writer); "
          "exhaustive over all lists of <= 3 (thorough 4) steps from 9 items x 4 destinations and over all lists of 1..2 of the 9 "
          "items into one bufio.Writer of 1, 2, 3, 4, 7, 10, 11, 16, 32 bytes pre-filled to every level 0..size (4096 bytes: "
-         "4084..4096), rapid lists of 1..12 steps. Not generated: sinks that fail or write short (io.Writer demands an error "
+         "4084..4096), rapid lists of 1..12 steps. "
+         "Copies of a writer (same case type; ObjectsWriter is a plain struct, see assumptions): with Copy set a base writer first "
+         "writes the items Pre (0..3) into a bytes.Buffer - same oracle - and every writer of the history, the one of each "
+         "goroutine and the inner one of each framing destination, starts as `w := base` (a by-value copy of that used, or "
+         "with no Pre unused, writer) instead of a zero value; a step with Fork set first gives every framing destination of "
+         "the goroutine a by-value copy of the goroutine's writer as it is at that moment as its inner writer. The copies are so "
+         "used interleaved (the framing sink encodes its frame header with its copy while the outer copy is inside "
+         "Writer.Write) and by 2..4 goroutines at once on separate sinks (yielding sinks, GOMAXPROCS(1) included); oracle "
+         "unchanged. Exhaustive: all lists of 1..2 steps from the 36-step alphabet with Copy and Pre = none / a number / a string, "
+         "and all lists of 2 (thorough 2..3) steps with Fork on a step after the first; rapid: a third of the histories have "
+         "Copy (Pre 0..3 items), a tenth of the steps Fork (classes writers_are_copies_of_a_used_writer, "
+         "writers_copies_of_a_used_writer_nested_in_framing_sink / _on_ge_2_goroutines, "
+         "writers_framing_sink_given_copy_of_used_outer_writer). Not generated: ONE ObjectsWriter value used by two goroutines "
+         "or re-entered from its own sink (the scratch array is per value), sinks that fail or write short (io.Writer demands an error "
          "for a short write, and the property says nothing about what ObjectsWriter returns when its Writer fails). "
          "non-trivial = some varint value or byte-string length is within 2 of 2^(7k) (or the varint is >= 2^64-3), or a "
          "fixed-width value is within 2 of 2^(8k) or of the top of its range; rejected short destinations are exercised by "
          "every case and counted in short_destination_rejections_checked; a writer history is non-trivial when the Writer field "
-         "changed between two items, or a destination is not a bytes.Buffer, or more than one goroutine wrote; a huge body is "
+         "changed between two items, or a destination is not a bytes.Buffer, or more than one goroutine wrote, or a writer is a copy of a used writer; a huge body is "
          "non-trivial when its length is within 2 of 2^(7k) or above 2^30; "
          "distinct = FNV hash of the case's JSON form",
     assumptions=["uint is 64 bits wide on the platform of the run (values up to 2^64-1 are given to MarshalUint)",
@@ -59,6 +77,8 @@ PROPS["C15"] = dict(
                  "newBuf=false 'aliases the input' is read as: a non-empty result starts at source[prefix length]; empty results carry no aliasing claim",
                  "'independent of the source buffer' (newBuf=true) is read on the backing array: the decoded slice, up to its capacity, shares no memory with the source (a zero-capacity result is fine)",
                  "Marshal 'returns number of bytes written': on success nothing outside dst[:n] is written, on failure nothing outside dst[:len(dst)]",
+                 "a []byte returned by UnmarshalBytes with newBuf=true ('decoded data is independent') belongs to the caller, who may write every byte of it up to its capacity; later decodes of the same or of other inputs are not affected by that (a decoded string is never written)",
+                 "ObjectsWriter may be copied by value, also after it was used: it is an exported struct of an exported io.Writer field and a scratch array, nothing in the package says 'must not be copied' (as bytes.Buffer / strings.Builder / sync types do), go vet's copylocks has nothing to report and the package's own tests use it as a value; each copy is an independent writer ('ObjectsWriter and Marshal emit identical bytes' holds for each), one VALUE is used by one goroutine at a time",
                  "a *bufio.Writer is an ordinary io.Writer for ObjectsWriter: what reaches the underlying sink after Flush is what ObjectsWriter was asked to write, whatever free space the buffer had",
                  "huge_bodies: a fresh allocation of several GiB is zeroed address space that the operating system backs lazily (Linux anonymous memory); the unit reads at most 16 bytes of the value and writes at most 10 bytes of the arena"],
     units=[
